@@ -1,5 +1,5 @@
 (* C07 — scan results are repeatable and independent of worker scheduling. *)
-From CPF Require Import Base.Bytes Base.Skel Scan.Merge Scan.MergeFacts Scan.Pool Scan.PoolFacts Scan.PoolSkel Scan.SkelSem Scan.SkelAbs Scan.SkelSim.
+From CPF Require Import Base.Bytes Base.Skel Scan.Merge Scan.MergeFacts Scan.Pool Scan.PoolFacts Scan.PoolSkel Scan.SkelSem Scan.SkelAbs Scan.SkelSim Scan.SkelTerm Scan.SkelCompl.
 From CPF.gen Require Import Tables.
 From Coq Require Import List Permutation.
 Import ListNotations.
@@ -79,3 +79,31 @@ Theorem C07_program_result : forall (files : list nat) (fails : bytes -> nat -> 
   buffered 5 [] (filter (SkelSim.readable fails) files) (s_merged s).
 Proof. exact skel_stuck_result. Qed.
 Print Assumptions C07_program_result.
+
+(* ... every step of the program decreases a natural-number measure (10 x the measure of the abstract state +
+   the statements each goroutine still has before it): no execution is infinite, whatever the scheduler does,
+   and none is longer than 142 n + 257 steps for n files *)
+Theorem C07_program_terminates : forall (files : list nat) (fails : bytes -> nat -> bool) s s',
+  sreach files fails s -> sstep files fails s s' -> sk_measure files s' < sk_measure files s.
+Proof. exact skel_variant. Qed.
+Print Assumptions C07_program_terminates.
+
+Theorem C07_program_run_length : forall (files : list nat) (fails : bytes -> nat -> bool) k s,
+  srun files fails k (sk_init pool_program_modelled) s -> k <= 142 * length files + 257.
+Proof. exact skel_run_length_bound. Qed.
+Print Assumptions C07_program_run_length.
+
+(* ... and the transition system has nothing the program cannot do: its reachable states are exactly the
+   abstractions of the program's reachable configurations, and each of its transitions is the image of a run
+   of the program (per configuration this needs the status updater not to have committed to returning:
+   SkelCompl.skel_completeness_counterexample is the machine-checked witness) *)
+Theorem C07_program_image_exact : forall (files : list nat) (fails : bytes -> nat -> bool) a,
+  reachable files 5 (SkelSim.readable fails) a <-> exists s, sreach files fails s /\ abs files 5 s = a.
+Proof. exact skel_image_exact. Qed.
+Print Assumptions C07_program_image_exact.
+
+Theorem C07_program_covers : forall (files : list nat) (fails : bytes -> nat -> bool) a t,
+  reachable files 5 (SkelSim.readable fails) a -> step (length files) 5 (SkelSim.readable fails) a t ->
+  exists s s', sreach files fails s /\ sruns files fails s s' /\ abs files 5 s = a /\ abs files 5 s' = t.
+Proof. exact skel_covers_transitions. Qed.
+Print Assumptions C07_program_covers.
